@@ -83,6 +83,7 @@ inductive Err where
   | unknownField                  -- `xpmtype.arguments[name]`: KeyError
   | requiredNone                  -- "Cannot set required attribute to None"
   | empty
+  | noDataLoader                  -- `RuntimeError("No serialization path was given")` (Model/SerialData.lean)
   deriving Repr, DecidableEq
 
 def lookupJ (k : List Nat) : List (List Nat) → List JVal → Option JVal
